@@ -52,38 +52,52 @@ Qed.
 
 Definition is_open (r : response) : bool := match r with ROpen _ _ => true | _ => false end.
 
+(** the session an answer announces / implies *)
+Definition creates (r : response) : option (bytes * tkind) :=
+  match r with
+  | ROpen sid k => Some (sid, k)
+  | ROpenVia sid _ => Some (sid, Polling)
+  | _ => None
+  end.
 
 (* ------------------------------------------------------------------ the decision *)
 
-Lemma new_socket_effect st sid k r st' :
+Lemma new_socket_effect st sid k a r st' :
   s_closed st = false -> store_exists sid (s_store st) = false ->
-  new_socket st sid k = (r, st') ->
-  r = ROpen sid k /\ s_closed st' = false /\ s_seq st' = s_seq st /\ s_store st' = s_store st ++ [(sid, k)].
+  new_socket st sid k a = (r, st') ->
+  r = a /\ s_closed st' = false /\ s_seq st' = s_seq st /\ s_store st' = s_store st ++ [(sid, k)].
 Proof.
   intros C E H. unfold new_socket, store_set in H. rewrite E in H. cbn in H. rewrite C in H.
   injection H as <- <-. cbn. auto.
 Qed.
 
-(** What a request can do to the server: nothing, except that an accepted handshake adds exactly
-    one session, under an id no live session has.  (The sequence counter may advance.) *)
 Arguments generate_sid : simpl never.
 Arguments new_socket : simpl never.
 Arguments eio_is4 : simpl never.
 
+(** What a request can do to the server: nothing, except that an accepted handshake adds exactly
+    one session, under an id no live session has (the sequence counter may advance).  Over
+    HTTP/1.x and HTTP/2 such a handshake is a GET with protocol version 4 answered with the OPEN
+    packet; over HTTP/3 the code checks neither (see C17_http3_* in Props/C17.v). *)
 Lemma serve_effect : forall rnd st rq r st',
   serve rnd st rq = (r, st') ->
   s_closed st' = s_closed st /\
-  ((is_open r = false /\ s_store st' = s_store st)
-   \/ exists sid k, r = ROpen sid k /\ r_sid rq = [] /\ r_auth rq = true /\ r_meth rq = GET
-                    /\ ~ In sid (sids (s_store st)) /\ s_store st' = s_store st ++ [(sid, k)]).
+  ((creates r = None /\ s_store st' = s_store st)
+   \/ exists sid k, creates r = Some (sid, k) /\ r_sid rq = [] /\ r_auth rq = true
+        /\ (is_p3 (r_proto rq) = false -> r = ROpen sid k /\ r_meth rq = GET /\ eio_is4 (r_eio rq) = true)
+        /\ ~ In sid (sids (s_store st)) /\ s_store st' = s_store st ++ [(sid, k)]).
 Proof.
   intros rnd st rq r st' H. unfold serve in H.
   destruct (s_closed st) eqn:C; [injection H as <- <-; rewrite C; auto|].
-  destruct (eio_is4 (r_eio rq)); cbn [negb] in H; [|injection H as <- <-; auto].
+  destruct (negb (is_p3 (r_proto rq)) && negb (eio_is4 (r_eio rq))) eqn:V; [injection H as <- <-; auto|].
+  assert (V' : is_p3 (r_proto rq) = false -> eio_is4 (r_eio rq) = true).
+  { intros P. rewrite P in V. cbn in V. now destruct (eio_is4 (r_eio rq)). }
   destruct (r_sid rq) as [|c sid'] eqn:S.
   - unfold handshake in H.
-    destruct (is_get (r_meth rq)) eqn:M; cbn [negb] in H; [|injection H as <- <-; rewrite C; now auto].
-    assert (M' : r_meth rq = GET) by (destruct (r_meth rq); try discriminate; reflexivity).
+    destruct (negb (is_get (r_meth rq)) && negb (is_p3 (r_proto rq))) eqn:M; [injection H as <- <-; rewrite C; now auto|].
+    assert (M' : is_p3 (r_proto rq) = false -> r_meth rq = GET).
+    { intros P. rewrite P in M. cbn in M. destruct (r_meth rq); try discriminate; reflexivity. }
+    destruct (is_connect (r_meth rq) && is_p3 (r_proto rq) && is_nil (r_tr rq)); [injection H as <- <-; rewrite C; now auto|].
     destruct (r_auth rq) eqn:A; cbn [negb] in H; [|injection H as <- <-; rewrite C; now auto].
     destruct (generate_sid rnd (s_store st) (s_seq st) 11) as [[sid|] q] eqn:G;
       [|injection H as <- <-; cbn; rewrite C; now auto].
@@ -91,15 +105,19 @@ Proof.
     assert (C1 : s_closed (set_seq st q) = false) by exact C.
     destruct (bytes_eqb (r_tr rq) s_polling).
     { apply new_socket_effect in H as (-> & C' & _ & St); [|exact C1|exact F].
-      rewrite C'. split; [reflexivity|]. right. exists sid, Polling. repeat split; try assumption.
-      now apply store_exists_false. }
+      rewrite C'. split; [reflexivity|]. right. exists sid, Polling. split; [destruct (is_get (r_meth rq)); reflexivity|].
+      repeat split; try assumption.
+      - rewrite (M' H). reflexivity.
+      - now apply M'.
+      - now apply V'.
+      - now apply store_exists_false. }
     destruct (bytes_eqb (r_tr rq) s_websocket); [|injection H as <- <-; cbn; rewrite C; now auto].
     destruct (r_wsup rq); [|injection H as <- <-; cbn; rewrite C; now auto].
     apply new_socket_effect in H as (-> & C' & _ & St); [|exact C1|exact F].
-    rewrite C'. split; [reflexivity|]. right. exists sid, Websocket. repeat split; try assumption.
+    rewrite C'. split; [reflexivity|]. right. exists sid, Websocket. repeat split; try assumption; auto.
     now apply store_exists_false.
   - destruct (store_get (c :: sid') (s_store st)) as [k|]; [|injection H as <- <-; auto].
-    destruct (is_get_or_post (r_meth rq)); cbn [negb] in H; [|injection H as <- <-; auto].
+    destruct (negb (is_get_or_post (r_meth rq)) && negb (is_p3 (r_proto rq))); [injection H as <- <-; auto|].
     destruct (bytes_eqb (tname k) (r_tr rq)); cbn [negb] in H; injection H as <- <-; split; auto; left; split; auto.
     + destruct k, (r_meth rq); reflexivity.
     + unfold maybe_upgrade. destruct (bytes_eqb (r_tr rq) s_websocket); [destruct (r_wsup rq); reflexivity|].
@@ -128,9 +146,14 @@ Qed.
 Definition gen_ok (rnd : N -> bytes) (st : sstate) : Prop :=
   fst (generate_sid rnd (s_store st) (s_seq st) 11) <> None.
 
+Lemma wt_connect_not_p3 rq : is_p3 (r_proto rq) = false -> wt_connect rq = false.
+Proof. intros P. unfold wt_connect. now rewrite P. Qed.
+
 Ltac defect d := exists d; split; [apply in_defects; unfold has_defect | ].
 
+(** Requests over HTTP/1.x and HTTP/2. *)
 Lemma invalid_is_error_and_pure : forall rnd st rq,
+  is_p3 (r_proto rq) = false ->
   s_closed st = false -> r_auth rq = true -> gen_ok rnd st ->
   defects st rq <> [] ->
   exists d, In d (defects st rq)
@@ -138,60 +161,89 @@ Lemma invalid_is_error_and_pure : forall rnd st rq,
     /\ s_store (snd (serve rnd st rq)) = s_store st
     /\ s_closed (snd (serve rnd st rq)) = false.
 Proof.
-  intros rnd st rq C A G ND. unfold serve. rewrite C.
+  intros rnd st rq P C A G ND. pose proof (wt_connect_not_p3 rq P) as W.
+  unfold serve. rewrite C, P. cbn [is_p3 negb andb].
   destruct (eio_is4 (r_eio rq)) eqn:V; cbn [negb].
-  2:{ defect BadVersion; [now rewrite V | cbn; auto]. }
+  2:{ defect BadVersion; [now rewrite V, W | cbn; auto]. }
   destruct (r_sid rq) as [|c sid'] eqn:S.
-  - unfold handshake.
+  - unfold handshake. rewrite P. cbn [negb andb]. rewrite andb_true_r, andb_false_r. cbn [andb].
     destruct (is_get (r_meth rq)) eqn:M; cbn [negb].
-    2:{ defect BadMethod; [now rewrite S, M | cbn; auto]. }
+    2:{ defect BadMethod; [now rewrite S, M, W | cbn; auto]. }
     rewrite A. cbn [negb]. unfold gen_ok in G.
     destruct (generate_sid rnd (s_store st) (s_seq st) 11) as [[sid|] q] eqn:E; [|now contradiction G].
     destruct (bytes_eqb (r_tr rq) s_polling) eqn:T1.
-    { exfalso. apply ND, no_defects. intros []; unfold has_defect; rewrite ?V, ?S, ?M, ?T1; reflexivity. }
+    { exfalso. apply ND, no_defects. intros []; unfold has_defect; rewrite ?V, ?S, ?M, ?T1, ?W; reflexivity. }
     destruct (bytes_eqb (r_tr rq) s_websocket) eqn:T2.
-    { exfalso. apply ND, no_defects. intros []; unfold has_defect; rewrite ?V, ?S, ?M, ?T1, ?T2; reflexivity. }
+    { exfalso. apply ND, no_defects. intros []; unfold has_defect; rewrite ?V, ?S, ?M, ?T1, ?T2, ?W; reflexivity. }
     defect UnknownTransport; [now rewrite S, T1, T2 | cbn; auto].
   - destruct (store_get (c :: sid') (s_store st)) as [k|] eqn:L.
     2:{ defect UnknownSid; [now rewrite S, L | cbn; auto]. }
+    rewrite andb_true_r.
     destruct (is_get_or_post (r_meth rq)) eqn:M; cbn [negb].
     2:{ defect BadMethod; [now rewrite S, L, M | cbn; auto]. }
     destruct (bytes_eqb (tname k) (r_tr rq)) eqn:T; cbn [negb].
-    { exfalso. apply ND, no_defects. intros []; unfold has_defect; rewrite ?V, ?S, ?L, ?M, ?T; reflexivity. }
+    { exfalso. apply ND, no_defects. intros []; unfold has_defect; rewrite ?V, ?S, ?L, ?M, ?T, ?W; reflexivity. }
     unfold maybe_upgrade.
     destruct (bytes_eqb (r_tr rq) s_websocket) eqn:T1.
-    { exfalso. apply ND, no_defects. intros []; unfold has_defect; rewrite ?V, ?S, ?L, ?M, ?T, ?T1; reflexivity. }
+    { exfalso. apply ND, no_defects. intros []; unfold has_defect; rewrite ?V, ?S, ?L, ?M, ?T, ?T1, ?W; reflexivity. }
     destruct (bytes_eqb (r_tr rq) s_webtransport) eqn:T2.
-    { exfalso. apply ND, no_defects. intros []; unfold has_defect; rewrite ?V, ?S, ?L, ?M, ?T, ?T1, ?T2; reflexivity. }
+    { exfalso. apply ND, no_defects. intros []; unfold has_defect; rewrite ?V, ?S, ?L, ?M, ?T, ?T1, ?T2, ?W; reflexivity. }
     defect BadSessionTransport; [now rewrite S, L, T, T1, T2 | cbn; auto].
 Qed.
 
 (** A request with exactly one defect gets exactly that defect's code. *)
 Corollary single_defect_code : forall rnd st rq d,
+  is_p3 (r_proto rq) = false ->
   s_closed st = false -> r_auth rq = true -> gen_ok rnd st ->
   defects st rq = [d] -> fst (serve rnd st rq) = RErr (code_of d).
 Proof.
-  intros rnd st rq d C A G D.
-  destruct (invalid_is_error_and_pure rnd st rq C A G) as (d' & I & R & _); [rewrite D; discriminate|].
+  intros rnd st rq d P C A G D.
+  destruct (invalid_is_error_and_pure rnd st rq P C A G) as (d' & I & R & _); [rewrite D; discriminate|].
   rewrite D in I. destruct I as [<-|[]]. exact R.
 Qed.
 
 (** A refused authentication creates nothing either. *)
 Lemma forbidden_pure : forall rnd st rq r st',
-  r_auth rq = false -> serve rnd st rq = (r, st') -> is_open r = false /\ s_store st' = s_store st.
+  r_auth rq = false -> serve rnd st rq = (r, st') -> creates r = None /\ s_store st' = s_store st.
 Proof.
   intros rnd st rq r st' A H. apply serve_effect in H as [_ [[O E]|(sid & k & _ & _ & A' & _)]]; [auto|congruence].
 Qed.
 
 (* ------------------------------------------------------------------ accepted handshakes *)
-Lemma valid_handshake_fresh : forall rnd st rq sid k st',
-  serve rnd st rq = (ROpen sid k, st') ->
+Lemma valid_handshake_fresh : forall rnd st rq r sid k st',
+  serve rnd st rq = (r, st') -> creates r = Some (sid, k) ->
   ~ In sid (sids (s_store st)) /\ s_store st' = s_store st ++ [(sid, k)] /\ (wf st -> wf st').
 Proof.
-  intros rnd st rq sid k st' H. pose proof H as H0.
-  apply serve_effect in H as [_ [[O _]|(sid' & k' & E & _ & _ & _ & F & St)]]; [discriminate|].
-  injection E as <- <-. repeat split; try assumption. intros W. eapply serve_wf; eassumption.
+  intros rnd st rq r sid k st' H Cr. pose proof H as H0.
+  apply serve_effect in H as [_ [[O _]|(sid' & k' & E & _ & _ & _ & F & St)]]; [congruence|].
+  rewrite Cr in E. injection E as <- <-. repeat split; try assumption. intros W. eapply serve_wf; eassumption.
 Qed.
+
+(** No session is created by a request with an unsupported version or a wrong method that
+    arrives over HTTP/1.x or HTTP/2 (whatever else the request says). *)
+Lemma creation_needs_valid_request : forall rnd st rq r st' sid k,
+  is_p3 (r_proto rq) = false ->
+  serve rnd st rq = (r, st') -> creates r = Some (sid, k) ->
+  eio_is4 (r_eio rq) = true /\ r_meth rq = GET /\ r_sid rq = [] /\ r_auth rq = true.
+Proof.
+  intros rnd st rq r st' sid k P H Cr.
+  apply serve_effect in H as [_ [[O _]|(sid' & k' & _ & S & A & V & _)]]; [congruence|].
+  destruct (V P) as (_ & M & E). auto.
+Qed.
+
+(* ------------------------------------------------------------------ HTTP/3 *)
+(** The code skips the version check and the method checks for EVERY request with
+    [r.ProtoMajor = 3], not only for the WebTransport session request: over HTTP/3 a polling
+    handshake with protocol version 3, or with POST, is accepted and creates a session. *)
+Definition h3_bad_version : request := mkReq P3 GET [51]%N s_polling [] false true.
+Definition h3_bad_method : request := mkReq P3 POST [52]%N s_polling [] false true.
+
+Lemma http3_refuted :
+  let st := mkState false [] 0 in
+  let rnd := fun _ : N => repeat 7%N 12 in
+  defects st h3_bad_version = [BadVersion] /\ creates (fst (serve rnd st h3_bad_version)) <> None
+  /\ defects st h3_bad_method = [BadMethod] /\ creates (fst (serve rnd st h3_bad_method)) <> None.
+Proof. vm_compute. repeat split; discriminate. Qed.
 
 (* ------------------------------------------------------------------ Close *)
 Lemma filter_filter {A} (f g : A -> bool) l : filter f (filter g l) = filter (fun x => g x && f x) l.
